@@ -64,6 +64,13 @@ def files_for(ill):
     out.append(('global', 'g = %s\n\n[G]\nmatch: g\ncategory: GCat\n\n%s' % (ill, GOOD_AFTER), GOOD_AFTER))
     out.append(('global-unused', 'g = %s\n\n%s' % (ill, GOOD_AFTER), GOOD_AFTER))
     out.append(('transform', 'field.description = %s\n\n%s\n%s' % (ill, GOOD_BEFORE, GOOD_AFTER), GOOD_BEFORE + '\n' + GOOD_AFTER))
+    # a transform may target a captured column that this statement does not have (a source without captures has NO `field`
+    # at all): whatever part of the transform step fails - evaluating the right-hand side or storing the value - the
+    # transform is skipped for that transaction
+    out.append(('transform-custom', 'field.payee = %s\n\n%s\n%s' % (ill, GOOD_BEFORE, GOOD_AFTER), GOOD_BEFORE + '\n' + GOOD_AFTER))
+    okx = 'field.payee = extract(field.description, "([A-Z]+)")\n'
+    out.append(('transform+custom', okx + 'field.description = %s\n\n%s\n%s' % (ill, GOOD_BEFORE, GOOD_AFTER),
+                okx + '\n' + GOOD_BEFORE + '\n' + GOOD_AFTER))
     return out
 
 
@@ -114,6 +121,13 @@ def _classify_all(text, mode, tmpdir):
         obs['parse_generic_csv'] = [[t['raw_description'], t['merchant'], t['category'], t['subcategory'], sorted(t['tags'])] for t in txns]
     except Exception as e:
         obs['parse_generic_csv'] = 'EXC:' + repr(e)
+    try:
+        # the same statement read by a source WITHOUT captured columns: its transactions carry no `field`
+        spec = parse_format_string('{date:%m/%d/%Y},{description},{amount},{_}')
+        txns = parse_generic_csv(csvp, spec, rules, source_name='Card', transforms=transforms, data_sources=DS)
+        obs['parse_generic_csv_plain'] = [[t['raw_description'], t['merchant'], t['category'], t['subcategory'], sorted(t['tags'])] for t in txns]
+    except Exception as e:
+        obs['parse_generic_csv_plain'] = 'EXC:' + repr(e)
     return obs
 
 
